@@ -318,6 +318,10 @@ macro_rules! family {
             pub fn serialize_with(&self, o: &SerOpts) -> Result<String, SeError> {
                 match self { $( Val::$variant(v) => ser(v, o), )* }
             }
+            /// serialize through one of the convenience entry points of `quick_xml::se` (default options)
+            pub fn serialize_entry(&self, entry: u8, root: Option<&str>) -> Result<String, String> {
+                match self { $( Val::$variant(v) => ser_entry(v, entry, root), )* }
+            }
             /// hand the concrete value to `f` (used to serialize it into other kinds of sinks)
             pub fn serialize_io(&self, f: &mut dyn FnMut(&dyn crate::props::c13::erased::Ser) -> Result<(), String>) -> Result<(), String> {
                 match self { $( Val::$variant(v) => f(v), )* }
@@ -395,6 +399,30 @@ pub fn ser<T: Serialize>(v: &T, o: &SerOpts) -> Result<String, SeError> {
     s.expand_empty_elements(o.expand_empty);
     v.serialize(s)?;
     Ok(out)
+}
+
+/// the convenience entry points: 0 to_string[_with_root], 1 to_writer[_with_root] into a String,
+/// 2 to_utf8_io_writer into a Vec<u8> (no root variant exists: falls back to 0 when a root is given)
+pub fn ser_entry<T: Serialize>(v: &T, entry: u8, root: Option<&str>) -> Result<String, String> {
+    match (entry % 3, root) {
+        (0, None) => quick_xml::se::to_string(v).map_err(|e| e.to_string()),
+        (0, Some(r)) | (2, Some(r)) => quick_xml::se::to_string_with_root(r, v).map_err(|e| e.to_string()),
+        (1, None) => {
+            let mut out = String::new();
+            quick_xml::se::to_writer(&mut out, v).map_err(|e| e.to_string())?;
+            Ok(out)
+        }
+        (1, Some(r)) => {
+            let mut out = String::new();
+            quick_xml::se::to_writer_with_root(&mut out, r, v).map_err(|e| e.to_string())?;
+            Ok(out)
+        }
+        _ => {
+            let mut out: Vec<u8> = Vec::new();
+            quick_xml::se::to_utf8_io_writer(&mut out, v).map_err(|e| e.to_string())?;
+            String::from_utf8(out).map_err(|e| format!("to_utf8_io_writer wrote bytes that are not UTF-8: {}", e))
+        }
+    }
 }
 
 pub fn de<T: DeserializeOwned>(xml: &str) -> Result<T, DeError> {
